@@ -132,6 +132,11 @@ int main() {
         en::Config cfg{};
         cfg.identity_seed = 5u; cfg.relay_enabled = false; cfg.storage_persistent_enabled = false;
         cfg.store_pow_difficulty = 0; cfg.shard_threshold = 2; cfg.shard_total = 3;
+        std::string good_nonce, bad_nonce;
+        if (mode == 7) {      // the limiter sequences with store proof-of-work on: nonces for the payload "xyz" found by the generator
+            cfg.store_pow_difficulty = static_cast<std::uint8_t>(in.next());
+            good_nonce = std::to_string(in.next()); bad_nonce = std::to_string(in.next());
+        }
         const auto configured = read_opt(in);
         cfg.control_token = configured;
         en::PeerId self{}; self[0] = 0x27;
@@ -197,19 +202,23 @@ int main() {
             out.put(static_cast<i64>(node->stored_chunks().size()));
             return;
         }
-        if (mode == 4) {
+        if (mode == 4 || mode == 7) {
             while (!in.eof()) {
                 const i64 dt = in.next(), kind = in.next(), remote = in.next();
                 const auto presented = read_opt(in);
                 hv::g_now_ns += (dt > 0 ? dt : 0) * 1'000'000'000LL;
                 std::string tok = presented ? "TOKEN:" + *presented + "\n" : std::string{};
                 if (configured) tok = "TOKEN:" + *configured + "\n";           // authenticated clients present the token
-                std::string req = kind == 0 ? "COMMAND:STORE\n" + tok + "TTL:600\nPAYLOAD-LENGTH:3\n\nxyz"
+                std::string pow;
+                if (mode == 7 && kind == 0) pow = "STORE-POW:" + good_nonce + "\n";
+                if (mode == 7 && kind == 2) pow = "STORE-POW:" + bad_nonce + "\n";
+                std::string req = kind != 1 ? "COMMAND:STORE\n" + tok + pow + "TTL:600\nPAYLOAD-LENGTH:3\n\nxyz"
                                             : "COMMAND:FETCH\n" + tok + "MANIFEST:" + uri + "\nSTREAM:client\n\n";
                 const auto resp = request(impl, req, "203.0.113." + std::to_string(remote));
                 const bool limited = resp.find("_RATE_LIMITED") != std::string::npos;
                 const bool ok = resp.rfind("STATUS:OK", 0) == 0;
-                out.put(ok ? 1 : (limited ? 0 : -9));
+                const bool powerr = resp.find("CODE:ERR_STORE_POW_") != std::string::npos;
+                out.put(ok ? 1 : (limited ? 0 : (powerr ? 2 : -9)));
             }
             return;
         }
